@@ -250,7 +250,9 @@ class Geometry:
             ]
         )
 
-        data = np.loadtxt(stream, skiprows=2, dtype=dt, comments=None)
+        data = np.atleast_1d(
+            np.loadtxt(stream, skiprows=2, dtype=dt, comments=None)
+        )
 
         atom_types = [PERIODIC_TABLE[atom] for atom in data["atom"]]
         coords = np.column_stack((data["x"], data["y"], data["z"]))
